@@ -249,11 +249,31 @@ def _check_writer(res, cname, m, binding, cls=None):
                             f"`{unparse(fnode.stmt)[:50]}`: if that fails the old entry is already gone", st)
 
 
+def _s3_insert_table_helper(program, res):
+    """DBSpace.insert writes through DBModel.insert_table; what that helper destroys before its own fallible write is destroyed for the space"""
+    m = program.method("db_model", "DBModel", "insert_table", inherited=False)
+    res.analysed(m)
+    g = cfgmod.build(m.node)
+    drops = [n for n in g.stmt_nodes(("stmt",)) if any(isinstance(c, ast.Call) and isinstance(c.func, ast.Attribute) and c.func.attr in ("drop_table",) for c in ast.walk(n.stmt))]
+    writes = [n for n in g.stmt_nodes(("stmt",)) if any(isinstance(c, ast.Call) and isinstance(c.func, ast.Attribute) and c.func.attr in ("to_sql", "create_table", "executemany")
+                                                         for c in ast.walk(n.stmt))]
+    if not writes:
+        raise AnalysisError("DBModel.insert_table: the write (to_sql) was not found")
+    early = [d_ for d_ in drops if any(w.id in g.reachable_from(d_.id) for w in writes)]
+    if early:
+        res.fail_at("C20-S3", m, "destroy-before-success:insert_table",
+                    f"DBModel.insert_table runs `{unparse(early[0].stmt)[:50]}` before the fallible `{unparse(writes[0].stmt)[:40]}`: when the write fails (a value the database cannot "
+                    f"store, duplicate column names) the old table is gone or half replaced although DBSpace.insert reports failure and keeps the old description", early[0].stmt)
+    else:
+        res.ok("C20-S3", "DBModel.insert_table destroys nothing before its write has succeeded")
+
+
 def run(program, res, tier):
     res.rule("C20-S1", "no store effect without 'overwrite allowed' or 'key absent' on the path")
     res.rule("C20-S2", "auto-generated keys are tested for freshness after their last assignment")
     res.rule("C20-S3", "binding written only after the fallible operation succeeded; nothing destroyed before it")
     res.rule("C20-S4", "keys/retrieve/describe read the single binding")
+    _s3_insert_table_helper(program, res)
     for (mod, cname, binding) in SPACES:
         cls = program.cls(mod, cname)
         for mname in ("insert", "execute"):
